@@ -143,9 +143,11 @@ def run(ctx):
     c = lib.local_calls(F, ro, "Document::renumber_objects_with")
     ctx.ob(R, "renumber-from-1", len(c) == 1 and ro.oname(c[0].args[1], 2) == "1", "renumber_objects() starts at 1", ro.where(), what="renumber_objects no longer starts at 1")
     # traverse_objects visits each once
-    tobj = [x for x in F.bodies.values() if F.canon_of(x).endswith("traverse_objects::traverse_object")]
+    # the function (nested helper, method of a helper struct, or traverse_objects itself) that queues referenced ids
+    tro = F.fn("Document::traverse_objects")
+    tobj = [F.bodies[q] for q in sorted(F.reach([tro.path])) if any(re.search(r"Vec::<.*>::push$", c.fn or "") and "(u32, u16)" in (c.full or "") for c in F.bodies[q].calls)]
     if len(tobj) != 1:
-        raise AnchorLost("traverse_object helper not found")
+        raise AnchorLost("the function that queues referenced object ids in traverse_objects was not found (%d candidates)" % len(tobj))
     t0 = tobj[0]
     push = [c for c in t0.calls if re.search(r"Vec::<.*>::push$", c.fn or "")]
     # the membership test that guards the push: `list.contains(id)` (false edge) or `set.insert(id)` (true edge) / `set.contains`;
